@@ -174,7 +174,10 @@ pub fn mtu() -> BoxedStrategy<(u16, u16, u16)> {
         1 => Just((1228u16, 1228u16, 1228u16)),
         1 => Just((1228u16, 1500u16, 1500u16)),
         1 => Just((1228u16, 1228u16, 9000u16)),
-        2 => (1228u16..=1500, 0u16..=600, 0u16..=7500).prop_map(|(b, i, m)| {
+        // the base MTU is the size every endpoint's receive buffer is guaranteed to take: it stays at the minimum,
+        // otherwise an endpoint whose max MTU (= receive buffer of the simulated socket) is below the peer's base MTU
+        // truncates every full-sized datagram for ever, which is a configuration error, not a protocol state
+        2 => (Just(1228u16), 0u16..=872, 0u16..=7500).prop_map(|(b, i, m)| {
             let initial = b.saturating_add(i).min(9000);
             let max = initial.saturating_add(m).min(9000);
             (b, initial, max)
